@@ -177,3 +177,17 @@ func HoistedSetting(units []string, out []string) {
 		<-done
 	}
 }
+
+// HoistedSet: positive control for the shared-accumulator rule (C18/R12): the set is made once, filled per group and
+// its size reported per group.
+func HoistedSet(groups [][]string) []int {
+	seen := make(map[string]struct{})
+	var sizes []int
+	for _, g := range groups {
+		for _, s := range g {
+			seen[s] = struct{}{}
+		}
+		sizes = append(sizes, len(seen))
+	}
+	return sizes
+}
